@@ -190,3 +190,31 @@ Theorem c11_response_batches_budget : forall (A : Type) (max_count budget : N) (
          (batch_stream max_count budget size l).
 Proof. exact (@batch_stream_budget). Qed.
 Print Assumptions c11_response_batches_budget.
+
+(* Comparison gets across shards (doMultiShardGet / selectResponse / compareGetResponse, modelled in Oxia.Client.Model over
+   CompareWithSlash): for every comparison type, every number of shards, every arrival order and every set of per-shard
+   answers that all carry a secondary key or none: the answer is KEY_NOT_FOUND when no shard has an OK answer; otherwise it
+   is one of the OK answers, the greatest of them in the slash order of (secondary key, key) for FLOOR / LOWER, the least for
+   CEILING / HIGHER, the first to arrive for EQUAL. *)
+From Oxia.Client Require MultiGetProofs.
+Theorem c11_multi_shard_get_follows_slash_order : forall kc orig (l : list Oxia.Client.Model.gresp),
+  Oxia.Client.MultiGetProofs.uniform l ->
+  match Oxia.Client.MultiGetProofs.fold_select cmp_slash kc None l with
+  | None => Oxia.Client.MultiGetProofs.oks l = [] /\
+            Oxia.Client.Model.to_get_result (Oxia.Client.MultiGetProofs.fold_select cmp_slash kc None l) orig
+              = Oxia.Client.Model.GErrNotFound
+  | Some m =>
+      In m (Oxia.Client.MultiGetProofs.oks l) /\
+      Oxia.Client.Model.to_get_result (Oxia.Client.MultiGetProofs.fold_select cmp_slash kc None l) orig =
+        Oxia.Client.Model.GResult (match Oxia.Client.Model.g_key m with Some k => k | None => orig end)
+                                  (Oxia.Client.Model.g_payload m) /\
+      match kc with
+      | Oxia.Client.Model.CEqual => exists tl, Oxia.Client.MultiGetProofs.oks l = m :: tl
+      | Oxia.Client.Model.CFloor | Oxia.Client.Model.CLower =>
+          forall r, In r (Oxia.Client.MultiGetProofs.oks l) -> Oxia.Client.MultiGetProofs.gle cmp_slash r m
+      | Oxia.Client.Model.CCeiling | Oxia.Client.Model.CHigher =>
+          forall r, In r (Oxia.Client.MultiGetProofs.oks l) -> Oxia.Client.MultiGetProofs.gle cmp_slash m r
+      end
+  end.
+Proof. exact Oxia.Client.InstProofs.multi_get_slash_extremum. Qed.
+Print Assumptions c11_multi_shard_get_follows_slash_order.
